@@ -414,9 +414,9 @@ def _gen_ptext(rng, quads, quads2):
         lines.append(qline(head, q))
     some_q = (rows[0][1] if rows else ["i1", "i7", "l2", "D"])
     neutral = [["B"], ["C"], ["TX", "."], ["TC", "."], ["TA", "."], ["TA", "N"], ["H", "H", "id", "3"], ["H", "H", "prev", "2"],
-               ["PA", "P"], ["PD", "P"], ["A", "N"], ["D", "N"], qline("H", some_q), qline("TX", some_q), ["Hello", "N"],
+               ["PA", "P"], ["PD", "P"], ["A", "N"], ["D", "N"], ["A", "K"], ["D", "K"], ["TC", "K"], qline("H", some_q), qline("TX", some_q), ["Hello", "N"],
                ["PA", "H", "id", "1"]]
-    noisy = [[rng.choice(WEIRD_HEADS), rng.choice(["N", ".", "P"])], ["A", "."], ["D", "P"], ["PA", "N"], ["PD", "."],
+    noisy = [[rng.choice(WEIRD_HEADS), rng.choice(["N", ".", "P", "K"])], ["PA", "K"], ["PAD", "K"], ["PDA", "K"], ["A", "."], ["D", "P"], ["PA", "N"], ["PD", "."],
              qline("PA", some_q), ["A", "H", "id", "1"], ["AD", "N"], ["PAD", "P"]]
     for _ in range(rng.choice([0, 1, 2, 3, 4])):
         lines.insert(rng.randrange(len(lines) + 1), list(rng.choice(neutral)))
@@ -708,7 +708,9 @@ def patch_text_of(doc, ws):
         lead = r.choice(["", "", "", " ", "\t "])
         tail = r.choice([" .", " .", " .", ".", " . # c", " .  "])
         if kind == "N":
-            body = r.choice(["", "   ", " # c"])
+            body = r.choice(["", "", "   "])
+        elif kind == "K":
+            body = " # c"
         elif kind == ".":
             body = " ."
         elif kind == "P":
@@ -717,6 +719,8 @@ def patch_text_of(doc, ws):
             body = " %s <urn:h:%s> ." % (ln[2], ln[3])
         else:
             terms = [_spell(x) for x in ln[2:5]] + ([] if ln[5] == "U" else [_spell(ln[5])])
+            if head.startswith("P"):      # PA / PD rows are split at blanks by the code: keep the canonical ` .` there
+                tail = " ."
             body = " " + " ".join(terms) + tail
         out.append(lead + head + body)
     return "\n".join(out) + "\n"
@@ -1533,9 +1537,17 @@ def _m_jsonld_base_is_graph(case, result):
         and _only_fmt(result, "jsonld")
 
 
+def _m_jsonld_underscore_prefix(case, result):
+    """pre-fix: a prefix named `_` is bound and json-ld is written with auto_compact"""
+    o = case.get("opt")
+    return bool(o) and o[0] == "jsonld" and bool(o[1].get("auto_compact")) and _only_fmt(result, "jsonld") \
+        and any(b[0] == "_" for b in case.get("binds") or [])
+
+
 TERM_IRI = {str(v): k for k, v in IRIS.items()}
 
 MATCHERS = {"jsonld_list_cell_shared_across_graphs": _m_jsonld_list_cell,
+            "jsonld_underscore_prefix": _m_jsonld_underscore_prefix,
             "trix_xmlns_prefix_declared": _m_trix_xmlns_prefix,
             "trig_default_prefix_clobbered": _m_trig_default_prefix_clobbered,
             "jsonld_base_equals_graph_name": _m_jsonld_base_is_graph,
